@@ -33,21 +33,21 @@ type gvar struct {
 }
 
 type G struct {
-	t       *rapid.T
-	cfg     Config
-	p       *Program
-	n       int
-	vars    []gvar
-	ints    []*Type
-	structs []*Type
-	enums   []*Type
-	helpers []*Func // pure functions callable from expressions: params ints/bools, ret int
-	incFns  map[string]*Func
-	tryFns  []*Func
-	updFns  []*Func
-	pickFns []*Func
-	depth   int
-	inLoop  bool
+	t        *rapid.T
+	cfg      Config
+	p        *Program
+	n        int
+	vars     []gvar
+	ints     []*Type
+	structs  []*Type
+	enums    []*Type
+	helpers  []*Func // pure functions callable from expressions: params ints/bools, ret int
+	incFns   map[string]*Func
+	tryFns   []*Func
+	updFns   []*Func
+	pickFns  []*Func
+	depth    int
+	inLoop   bool
 	captured map[string]bool
 	nest     int // statement nesting depth inside the current scenario
 }
